@@ -556,11 +556,13 @@ private theorem consumed_pos {F : List Frame} (h : F ≠ []) : 0 < consumed F :=
   | cons f fs => simp only [consumed, Frame.totalSize]; omega
 
 /-- state of an extractor that has not reported yet, after the bytes `seen` -/
-private structure Inv (s : Extractor) (seen : Bytes) : Prop where
+private structure Inv0 (s : Extractor) (seen : Bytes) : Prop where
   fp : s.fingerprint = none
   buf : s.buffer = seen
   off : s.parsedOffset =
     if parseFrames (afterP seen) = [] then 0 else prefaceLen seen + consumed (parseFrames (afterP seen))
+
+private structure Inv (s : Extractor) (seen : Bytes) : Prop extends Inv0 s seen where
   irr : (parseFrames (afterP seen)).any KF.C17.relevant = false
 
 private theorem run_done (H : Hpack) {α} (f : Bytes → Option α) :
@@ -598,7 +600,7 @@ private theorem run_done_eq (H : Hpack) : ∀ (chunks : List Bytes) (s : Extract
     simp [Extractor.run, hstep, ih s hs]
 
 /-- what one `add_bytes` call parses, in terms of the frames of the whole buffer -/
-private theorem step_frames (s : Extractor) (seen c : Bytes) (inv : Inv s seen) :
+private theorem step_frames (s : Extractor) (seen c : Bytes) (inv : Inv0 s seen) :
     let start := if s.parsedOffset = 0 ∧ hasPreface (seen ++ c) = true then preface.length else s.parsedOffset
     let N := parseFrames ((seen ++ c).drop start)
     parseFrames (afterP (seen ++ c)) = parseFrames (afterP seen) ++ N ∧
@@ -646,7 +648,7 @@ private theorem incremental_aux (H : Hpack) : ∀ (chunks : List Bytes) (s : Ext
   | nil => intro _ _ _ _; rfl
   | cons c cs ih =>
     intro s seen inv hk
-    obtain ⟨hfr, hN⟩ := step_frames s seen c inv
+    obtain ⟨hfr, hN⟩ := step_frames s seen c inv.toInv0
     have hirr := inv.irr
     -- one-shot on the new prefix = fingerprint of the frames parsed by this call
     have hone : oneShot H (seen ++ c) = extractAkamai H
@@ -726,6 +728,99 @@ private theorem incremental_aux (H : Hpack) : ∀ (chunks : List Bytes) (s : Ext
                 · simp only [hF, if_false]; rw [prefaceLen_stable seen c hF],
               irr := by rw [hfr]; exact hirr }
 
+
+/-! ### what the extractor does for *every* chunking (no exclusion) -/
+
+/-- frames carried by a byte prefix (after the preface) -/
+def framesOf (d : Bytes) : List Frame := (parseFramesSkipPreface d).1
+
+/-- report, once, the fingerprint of the frames that *became complete with the current chunk* -/
+def windowReport (H : Hpack) : (seen : Bytes) → (done : Bool) → List Bytes → List (Option Fingerprint)
+  | _, _, [] => []
+  | seen, done, c :: cs =>
+    let seen' := seen ++ c
+    if done then none :: windowReport H seen' true cs
+    else match extractAkamai H ((framesOf seen').drop (framesOf seen).length) with
+      | some fp => some fp :: windowReport H seen' true cs
+      | none => none :: windowReport H seen' false cs
+
+private theorem windowReport_done (H : Hpack) : ∀ (chunks : List Bytes) (seen : Bytes),
+    windowReport H seen true chunks = chunks.map (fun _ => none) := by
+  intro chunks
+  induction chunks with
+  | nil => intro _; rfl
+  | cons c cs ih => intro seen; simp [windowReport, ih]
+
+private theorem window_aux (H : Hpack) : ∀ (chunks : List Bytes) (s : Extractor) (seen : Bytes),
+    Inv0 s seen → Extractor.run H s chunks = windowReport H seen false chunks := by
+  intro chunks
+  induction chunks with
+  | nil => intro _ _ _; rfl
+  | cons c cs ih =>
+    intro s seen inv
+    obtain ⟨hfr, hN⟩ := step_frames s seen c inv
+    have hfpnone : s.fingerprint.isSome = false := by rw [inv.fp]; rfl
+    have hwin : (framesOf (seen ++ c)).drop (framesOf seen).length =
+        parseFrames ((seen ++ c).drop
+          (if s.parsedOffset = 0 ∧ hasPreface (seen ++ c) = true then preface.length else s.parsedOffset)) := by
+      change (parseFrames (afterP (seen ++ c))).drop (parseFrames (afterP seen)).length = _
+      rw [hfr, List.drop_left]
+    simp only [Extractor.run, windowReport, Bool.false_eq_true, if_false, hwin]
+    unfold Extractor.addBytes
+    simp only [hfpnone, Bool.false_eq_true, if_false, inv.buf]
+    generalize hst : (if s.parsedOffset = 0 ∧ hasPreface (seen ++ c) = true then preface.length else s.parsedOffset) = start at *
+    generalize hNd : parseFrames ((seen ++ c).drop start) = N at *
+    have keep : N = [] → Inv0 { s with buffer := seen ++ c } (seen ++ c) := by
+      intro hNe
+      subst hNe
+      rw [List.append_nil] at hfr
+      exact { fp := inv.fp, buf := rfl,
+              off := by
+                show s.parsedOffset = _
+                rw [inv.off, hfr]
+                by_cases hF : parseFrames (afterP seen) = []
+                · simp [hF]
+                · simp only [hF, if_false]; rw [prefaceLen_stable seen c hF] }
+    by_cases hlen : ((seen ++ c).drop start).length ≥ 9
+    · simp only [hlen, if_true]
+      cases hNe : N with
+      | nil =>
+        have hx : extractAkamai H ([] : List Frame) = none := by simp [extractAkamai, extractSettings]
+        simp only [List.isEmpty_nil, if_true, hx]
+        congr 1
+        exact ih _ _ (keep hNe)
+      | cons n ns =>
+        have hNne : N ≠ [] := by rw [hNe]; simp
+        simp only [List.isEmpty_cons, Bool.false_eq_true, if_false]
+        rw [← hNe]
+        cases hex : extractAkamai H N with
+        | some fp =>
+          simp only
+          congr 1
+          rw [windowReport_done, run_done_eq H cs _ (by simp)]
+        | none =>
+          simp only
+          congr 1
+          apply ih
+          have hne' : parseFrames (afterP (seen ++ c)) ≠ [] := by
+            rw [hfr]; intro h0; exact hNne (List.append_eq_nil_iff.mp h0).2
+          exact { fp := rfl, buf := rfl, off := by simp only [hne', if_false]; exact hN hNne }
+    · have hNnil : N = [] := by rw [← hNd]; exact parseFrames_short (by omega)
+      have hx : extractAkamai H ([] : List Frame) = none := by simp [extractAkamai, extractSettings]
+      simp only [hlen, if_false, hNnil, hx]
+      congr 1
+      exact ih _ _ (keep hNnil)
+
+/-- **C17, what the code does for every chunking.** With no exclusion at all:
+`Http2FingerprintExtractor::add_bytes` reports, once, the fingerprint of the frames that *became
+complete with the current chunk* — the first chunk whose newly completed frames contain a non-empty
+SETTINGS frame on stream 0. (This is the precise form of the finding
+`KF.C17.frameBeforeSettingsChunk`: frames completed by earlier chunks are not part of it.) -/
+theorem incremental_window (H : Hpack) (chunks : List Bytes) :
+    incremental H chunks = windowReport H [] false chunks := by
+  unfold incremental
+  exact window_aux H chunks {} [] { fp := rfl, buf := rfl, off := by decide }
+
 /-- the full-strength incremental statement: for every chunking, the extractor's outputs are
 "one report, on the first chunk at which the one-shot function is defined on the bytes so far, of
 that value" -/
@@ -801,6 +896,11 @@ private def wEarly : List Bytes := [clientPreface ++ [0, 0, 5, 2, 0, 0, 0, 0, 3,
 theorem kf_frameBeforeSettingsChunk_witness :
     KF.C17.frameBeforeSettingsChunk Hpack.crate wEarly = true ∧
     incremental Hpack.crate wEarly ≠ reportOnce (oneShot Hpack.crate) [] false wEarly := by decide
+
+/-- non-vacuity of `incremental_window` on the same input: the PRIORITY frame of chunk 1 is not part
+of what chunk 2 reports -/
+example : (windowReport Hpack.crate [] false wEarly).map (Option.map Fingerprint.render) =
+    [none, some (ascii "1:65536;4:131072|00|0|")] := by decide
 
 theorem fullIncremental_fails : ¬ FullIncremental :=
   fun h => kf_frameBeforeSettingsChunk_witness.2 (h Hpack.crate wEarly)
